@@ -855,6 +855,10 @@ def run_threaded (ctx, prog, fd_at, funcs=HANDOFF, max_points=8000, keep_log=Fal
   v = S.verdict
   if leaked and v is None: v = ("leaked-threads", ",".join(leaked))
   w.S = S
+  w.harness_error = None
+  if v is not None and v[0] in ("harness-timeout", "leaked-threads"):
+    w.harness_error = "threaded execution: %s: %s" % v          # the explorer's trouble, never a violation
+    return w
   if v is None or v[0] in ("lost-wakeup", "deadlock"):
     w.at_horizon()
   if v is not None and not w.bad:
@@ -898,6 +902,8 @@ def _thr_worker (item):
       rep.transitions += len(ctx.trace)
       kk = "execs_threaded_program_%d" % pi
       rep.extra[kk] = rep.extra.get(kk, 0) + 1
+      if w.harness_error:
+        rep.error("%s [program %d, choices %r]" % (w.harness_error, pi, ctx.choices()))
       rep.outcome(("thr", pi, tuple(w.trace), w.observation(), tuple(k for k, _ in w.bad)))
       if w.bad:
         _violation(rep, w, dict(part="threaded", program=pi, prog=_prog_to_json(prog), fd_at={str(k): v for k, v in fd_at.items()},
